@@ -227,7 +227,7 @@ impl Memory {
 //@contract
   ensures r == (self.unify || (self.flag.bits & 1u8 == 1u8)), // [C16] file-backed arenas always use the unified layout
 //@@end
-//@@fn file=memory.rs scope="impl<R: RefCounter, PR: PathRefCounter, H: Header> Memory<R, PR, H> {" name=alloc norm=1 xlate=plain st=mut props=C16,C09
+//@@fn file=memory.rs scope="impl<R: RefCounter, PR: PathRefCounter, H: Header> Memory<R, PR, H> {" name=alloc norm=1 xlate=plain st=mut props=C16,C09,C03
 //@subst /AlignedVec::new::<H>\((.+?), (.+?)\)/ => AlignedVec::new_shim(st, \1, \2)
 //@subst /let ptr = vec\.as_mut_ptr\(\);\s*ptr::write_bytes\(ptr, (.+?), (.+?)\);/ => let ptr = vec.as_mut_ptr(); st.fill_all(\1, \2);
 //@subst /let header_ptr = ptr\.add\(header_ptr_offset\)\.cast::<H>\(\);/ => 
